@@ -29,7 +29,8 @@ import (
 // on an object nobody else has used ("run alone"), whatever entry point another caller used before on
 // OTHER data — every ordered pair of entry points, deterministically, on one goroutine — and when all
 // callers run at once (stress, also under the race detector). The shared object's fingerprint
-// (unexported fields included) must not change.
+// (unexported fields included) must not change, and neither must its IDENTITY list (the addresses of the
+// pointers, maps and slices inside it): a write that stores an equal value is still a write.
 
 // invEntry is one read-only entry point: it runs on caller k's own data and renders everything the
 // caller can observe (result, error, panic, and its own data afterwards where the call mutates it).
@@ -255,6 +256,38 @@ func invExprEntries() []invEntry {
 			r, err := x(o).ModifyOne(d, mod)
 			return after(d, Render(r)+errText(err))
 		}},
+		{"MustSet", func(o any, k int) string {
+			d := invDoc(k)
+			return after(d, invGuard(func() string { x(o).MustSet(d, "MS"); return "-" }))
+		}},
+		{"MustSetOne", func(o any, k int) string {
+			d := invDoc(k)
+			return after(d, invGuard(func() string { x(o).MustSetOne(d, "M1"); return "-" }))
+		}},
+		{"MustDel", func(o any, k int) string {
+			d := invDoc(k)
+			return after(d, invGuard(func() string { x(o).MustDel(d); return "-" }))
+		}},
+		{"MustDelOne", func(o any, k int) string {
+			d := invDoc(k)
+			return after(d, invGuard(func() string { x(o).MustDelOne(d); return "-" }))
+		}},
+		{"MustRemove", func(o any, k int) string {
+			d := invDoc(k)
+			return after(d, invGuard(func() string { return Render(x(o).MustRemove(d)) }))
+		}},
+		{"MustRemoveOne", func(o any, k int) string {
+			d := invDoc(k)
+			return after(d, invGuard(func() string { return Render(x(o).MustRemoveOne(d)) }))
+		}},
+		{"MustModify", func(o any, k int) string {
+			d := invDoc(k)
+			return after(d, invGuard(func() string { return Render(x(o).MustModify(d, mod)) }))
+		}},
+		{"MustModifyOne", func(o any, k int) string {
+			d := invDoc(k)
+			return after(d, invGuard(func() string { return Render(x(o).MustModifyOne(d, mod)) }))
+		}},
 		{"String", func(o any, k int) string { return x(o).String() }},
 		{"BracketString", func(o any, k int) string { return x(o).BracketString() }},
 		{"Append", func(o any, k int) string { return string(x(o).Append(make([]byte, 0, k), k%2 == 0)) }},
@@ -306,6 +339,8 @@ func invFilterEntries() []invEntry {
 		}},
 		{"Match", func(o any, k int) string { return fmt.Sprint(f(o).Match(invItem(k))) }},
 		{"String", func(o any, k int) string { return f(o).String() }},
+		{"Append", func(o any, k int) string { return string(f(o).Append(make([]byte, 0, k), true, false)) }},
+		{"Eval", func(o any, k int) string { return Render(f(o).Eval([]any{}, invDoc(k).(map[string]any)["items"])) }},
 	}
 }
 
@@ -522,6 +557,124 @@ func invConverterEntries() []invEntry {
 	}
 }
 
+// Identity lists the addresses of everything reachable from a shared object that a write could REPLACE —
+// pointers, maps, slices (data pointer, length, capacity) — by access path. Inside one process these are
+// stable as long as nobody assigns them (Go's collector does not move heap objects), so a shared object
+// whose identity list differs after a call was written even if every value in it is what it was
+// (a cache re-filled with an equal map, an entry re-indexed). Type descriptors (package reflect) are left out.
+func Identity(v any) string {
+	var sb strings.Builder
+	seen := map[uintptr]bool{}
+	var walk func(v reflect.Value, path string, depth int)
+	walk = func(v reflect.Value, path string, depth int) {
+		if !v.IsValid() || depth > 24 {
+			return
+		}
+		if pk := v.Type().PkgPath(); pk == "reflect" || pk == "regexp" || pk == "sync" || pk == "time" || strings.HasPrefix(pk, "internal/") || strings.HasPrefix(pk, "regexp/") {
+			return
+		}
+		switch v.Kind() {
+		case reflect.Ptr:
+			if v.IsNil() {
+				return
+			}
+			fmt.Fprintf(&sb, "%s=%x ", path, v.Pointer())
+			if seen[v.Pointer()] {
+				return
+			}
+			seen[v.Pointer()] = true
+			walk(v.Elem(), path+"*", depth+1)
+		case reflect.Interface:
+			if !v.IsNil() {
+				walk(v.Elem(), path, depth+1)
+			}
+		case reflect.Struct:
+			for i := 0; i < v.NumField(); i++ {
+				walk(v.Field(i), path+"."+v.Type().Field(i).Name, depth+1)
+			}
+		case reflect.Slice:
+			if v.IsNil() {
+				return
+			}
+			fmt.Fprintf(&sb, "%s=%x/%d/%d ", path, v.Pointer(), v.Len(), v.Cap())
+			for i := 0; i < v.Len(); i++ {
+				walk(v.Index(i), fmt.Sprintf("%s[%d]", path, i), depth+1)
+			}
+		case reflect.Array:
+			for i := 0; i < v.Len(); i++ {
+				walk(v.Index(i), fmt.Sprintf("%s[%d]", path, i), depth+1)
+			}
+		case reflect.Map:
+			if v.IsNil() {
+				return
+			}
+			fmt.Fprintf(&sb, "%s=%x ", path, v.Pointer())
+			keyText := func(k reflect.Value) string {
+				switch k.Kind() {
+				case reflect.String:
+					return k.String()
+				case reflect.Int, reflect.Int8, reflect.Int16, reflect.Int32, reflect.Int64:
+					return fmt.Sprint(k.Int())
+				case reflect.Uint, reflect.Uint8, reflect.Uint16, reflect.Uint32, reflect.Uint64, reflect.Uintptr:
+					return fmt.Sprint(k.Uint())
+				}
+				return "" // other key kinds: the map's own address is still compared
+			}
+			keys := v.MapKeys()
+			sort.Slice(keys, func(i, j int) bool { return keyText(keys[i]) < keyText(keys[j]) })
+			for _, k := range keys {
+				if kt := keyText(k); kt != "" {
+					walk(v.MapIndex(k), path+"["+kt+"]", depth+1)
+				}
+			}
+		}
+	}
+	walk(reflect.ValueOf(v), "o", 0)
+	return sb.String()
+}
+
+// invCovered: the exported methods of the shared jp types that the entry points above go through. The path
+// builders of Expr (x.C("a").N(1) …: construction, `return append(x, frag)`) are not read-only entry points.
+var invCovered = map[string][]string{
+	"jp.Expr": {"Get", "First", "FirstFound", "Has", "Locate", "Walk", "GetNodes", "FirstNode", "Set", "SetOne", "MustSet", "MustSetOne",
+		"Del", "DelOne", "MustDel", "MustDelOne", "Remove", "RemoveOne", "MustRemove", "MustRemoveOne", "Modify", "ModifyOne", "MustModify", "MustModifyOne",
+		"String", "BracketString", "Append", "Normal"},
+	"jp.Script": {"Match", "Eval", "String", "Append", "Inspect"},
+	// Walk(rest, path, nodes, cb) is the fragment-level step of Expr.Walk: exercised through in-path.Walk
+	"jp.Filter": {"Match", "Eval", "String", "Append", "Inspect", "Walk"},
+}
+
+var invBuilders = []string{"A", "At", "B", "C", "Child", "D", "Descent", "F", "Filter", "N", "Nth", "R", "Root", "S", "Slice", "U", "Union", "W", "Wildcard"}
+
+// InventoryComplete compares the method sets of the shared jp types (reflection, so the tree under test decides)
+// with the methods the inventory exercises: an exported method that is neither a path builder nor covered is
+// an entry point nobody runs; a covered method that no longer exists is a stale table.
+func InventoryComplete() []string {
+	var out []string
+	types := map[string]reflect.Type{"jp.Expr": reflect.TypeOf(jp.Expr{}), "jp.Script": reflect.TypeOf(&jp.Script{}), "jp.Filter": reflect.TypeOf(&jp.Filter{})}
+	for name, t := range types {
+		known := map[string]bool{}
+		for _, m := range invCovered[name] {
+			known[m] = true
+			if _, ok := t.MethodByName(m); !ok {
+				out = append(out, name+"."+m+" is listed as covered but is not a method of the type")
+			}
+		}
+		if name == "jp.Expr" {
+			for _, m := range invBuilders {
+				known[m] = true
+			}
+		}
+		for i := 0; i < t.NumMethod(); i++ {
+			if m := t.Method(i).Name; !known[m] {
+				out = append(out, name+"."+m+" is an exported method the shared-object inventory does not run")
+			}
+		}
+	}
+	sort.Strings(out)
+	return out
+}
+
 // Inventory is the list of everything C08 lets callers share, with every read-only entry point.
 func Inventory() []invObject {
 	var inv []invObject
@@ -567,6 +720,10 @@ func invPerm(r *lib.Rng, n int) []int {
 // and the object must still be what it was. Every pair, so also Locate/Walk-then-Get and both orders.
 func (run *Run) SharedInventory(emit func(lib.Finding)) int {
 	n := 0
+	for _, gap := range InventoryComplete() {
+		emit(lib.Finding{Kind: "disagreement", Class: "inventory-incomplete", What: "the shared-object inventory no longer matches the method sets of the tree under test: " + gap,
+			Replay: map[string]any{"scenario": "shared-inventory", "gap": gap}})
+	}
 	for _, ob := range Inventory() {
 		reported := map[string]bool{}
 		alone := make([]string, len(ob.entries))
@@ -581,6 +738,7 @@ func (run *Run) SharedInventory(emit func(lib.Finding)) int {
 				run.Rep.Count("c08.inventory.pairs."+ob.kind, 1)
 				shared := ob.mk()
 				before := ob.fp(shared)
+				idBefore := Identity(shared)
 				nbefore := ""
 				if ob.norm != nil {
 					nbefore = ob.norm(shared)
@@ -601,6 +759,13 @@ func (run *Run) SharedInventory(emit func(lib.Finding)) int {
 							ob.kind, ob.name, e1.name, e2.name, clip(got), clip(alone[j])),
 						Replay: map[string]any{"scenario": "shared-inventory", "kind": ob.kind, "object": ob.name, "first": e1.name, "then": e2.name,
 							"data": "invDoc(1) then invDoc(2)", "got": got, "alone": alone[j]}})
+				}
+				if idAfter := Identity(shared); idAfter != idBefore && mid == before && after == before && !reported["i"+e1.name] && !reported["i"+e2.name] {
+					reported["i"+e1.name], reported["i"+e2.name] = true, true
+					emit(lib.Finding{Kind: "violation", Class: "shared-object-rewritten:" + ob.kind + ":" + e1.name + "-then-" + e2.name,
+						What: fmt.Sprintf("%s %s: after %s and %s on caller-owned data every value in the shared object is what it was, but a pointer / map / slice inside it has been REPLACED (an unsynchronised write with an equal value): %s",
+							ob.kind, ob.name, e1.name, e2.name, strings.Join(envDiff([]string{"identity\t" + idBefore}, []string{"identity\t" + idAfter}), "; ")),
+						Replay: map[string]any{"scenario": "shared-inventory", "kind": ob.kind, "object": ob.name, "first": e1.name, "then": e2.name}})
 				}
 				if (mid != before || after != before) && !reported["w"+e1.name+e2.name] {
 					who := e1.name
@@ -648,6 +813,7 @@ func InventoryStress(seed uint64, goroutines, reps int, want func(kind string) b
 		}
 		shared := ob.mk()
 		before := ob.fp(shared)
+		idBefore := Identity(shared)
 		nbefore := ""
 		if ob.norm != nil {
 			nbefore = ob.norm(shared)
@@ -690,6 +856,12 @@ func InventoryStress(seed uint64, goroutines, reps int, want func(kind string) b
 			emit(lib.Finding{Kind: "violation", Class: "shared-object-concurrent:" + ob.kind + ":" + k,
 				What:   fmt.Sprintf("%s %s shared by %d goroutines, each on its own data: %s", ob.kind, ob.name, goroutines, bad[k]),
 				Replay: map[string]any{"scenario": "shared-inventory-stress", "kind": ob.kind, "object": ob.name, "entry": k, "seed": seed, "goroutines": goroutines, "reps": reps}})
+		}
+		if after := ob.fp(shared); after == before && Identity(shared) != idBefore {
+			emit(lib.Finding{Kind: "violation", Class: "shared-object-rewritten:stress:" + ob.kind,
+				What: fmt.Sprintf("%s %s: after %d goroutines used it on their own data every value in the shared object is what it was, but a pointer / map / slice inside it has been REPLACED: %s",
+					ob.kind, ob.name, goroutines, strings.Join(envDiff([]string{"identity\t" + idBefore}, []string{"identity\t" + Identity(shared)}), "; ")),
+				Replay: map[string]any{"scenario": "shared-inventory-stress", "kind": ob.kind, "object": ob.name, "seed": seed}})
 		}
 		if after := ob.fp(shared); after != before {
 			kind, knownID := "violation", ""
